@@ -103,7 +103,12 @@ def recreated_on_copy(idx, cls, attr):
                     for tgt in sub.targets:
                         if isinstance(tgt, ast.Attribute) and \
                                 tgt.attr == attr:
-                            return kls.name + "." + meth
+                            # on every path through the method
+                            from sa.obligations import skips_consult
+                            frag = f".{attr} = "
+                            if skips_consult(func, frag) is None:
+                                return kls.name + "." + meth
+                            return None
     return None
 
 
@@ -405,9 +410,29 @@ def check_table_copy(idx, run):
     for stmt in ast.walk(func):
         if isinstance(stmt, ast.If):
             rebinds = [a for a in stmt.body if isinstance(a, ast.Assign) and
-                       "self.symbol_table.lookup(" in ast.unparse(a.value)]
+                       isinstance(a.targets[0], ast.Attribute) and
+                       a.targets[0].attr in ("symbol", "variable",
+                                             "_symbol", "_variable") and
+                       ".lookup(" in ast.unparse(a.value)]
             if not rebinds:
                 continue
+            for reb in rebinds:
+                call = reb.value
+                recv = ast.unparse(call.func.value) if isinstance(
+                    call, ast.Call) and isinstance(
+                        call.func, ast.Attribute) else "?"
+                okr = recv in ("self.symbol_table", "self._symbol_table") \
+                    and not [k for k in call.keywords]
+                run.check(
+                    "C15.R2", okr, "ScopingNode._refine_copy",
+                    f"{ast.unparse(reb.targets[0])} is taken from the "
+                    f"copied scope's own table",
+                    f"the replacement symbol is looked up with "
+                    f"'{ast.unparse(call)[:80]}' instead of in the table of "
+                    f"the copied scope itself: a nested scope that declares "
+                    f"the same name captures the reference (tmp = tmp + "
+                    f"tmp_1 is copied as tmp_1 = tmp_1 + tmp_1)",
+                    loc(scls.module, reb))
             ttxt = ast.unparse(stmt.test)
             names = {n.id for n in ast.walk(stmt.test)
                      if isinstance(n, ast.Name)}
